@@ -18,8 +18,10 @@ import struct
 from binascii import crc32
 
 from vf.harness import Harness
+from vf.explore import Inconclusive
 from vf.env.c14_env import Mem, Other, Calls, YamlStore, install_format_stub, install_disjoint_or, install_bv_lowmask, \
-    install_struct_int_bv, install_linear_crc, bv_int, all_equal, iff
+    install_struct_int_bv, install_linear_crc, bv_int, all_equal, iff, install_bytes_split, \
+    check_crc_model, prove_crc_models_equal
 
 from cflib.crazyflie.mem.i2c_element import I2CElement
 from cflib.crazyflie.mem.ow_element import OWElement
@@ -42,6 +44,7 @@ install_disjoint_or()
 install_bv_lowmask()
 install_struct_int_bv()
 install_linear_crc()
+install_bytes_split()
 
 FLT_MAX = 3.4028234663852886e+38     # largest float32; doubles beyond it are not "representable content"
 
@@ -641,36 +644,45 @@ def h_compressed(sym):
     sym.goal('segment')
 
 
-def rgb565(r, g, b):
-    """Nearest 5/6/5 bit value of an 8 bit colour, packed r:g:b = 15-11:10-5:4-0."""
-    return ((r * 31 + 127) // 255) * 2048 + ((g * 63 + 127) // 255) * 32 + (b * 31 + 127) // 255
-
-
 def h_led_timings(sym):
-    """LED timing sequence: per entry duration u8, RGB565 (high byte first), leds (bits 0-3) | fade (bit 4) | rotate
-    (bits 5-7); an all-zero entry terminates the sequence on the device, so such entries cannot be part of it."""
+    """LED timing sequence: per entry duration u8, RGB565 (high byte first; 5/6/5 bit channel = nearest value of the
+    8 bit channel), leds (bits 0-3) | fade (bit 4) | rotate (bits 5-7); an all-zero entry terminates the sequence on the
+    device, so such entries cannot be part of it."""
     n = sym.B['n']
     h = Mem()
     m = LEDTimingsDriverMemory(id=3, type=MemoryElement.TYPE_DRIVER_LEDTIMING, size=2000, mem_handler=h)
-    ref = []
+    want = []
     for k in range(n):
-        t, r, g, b = sym.int(f't{k}', 0, 255), sym.int(f'r{k}', 0, 255), sym.int(f'g{k}', 0, 255), sym.int(f'b{k}', 0, 255)
+        t = sym.int(f't{k}', 0, 255)
+        # one colour channel symbolic at a time (the three scalings in one query cost z3 ~10 s per path); 3 = black
+        chan = sym.choice(f'chan{k}', 4)
+        rgb = [0, 0, 0] if chan == 3 else [0x5A, 0xC3, 0x0F]
+        if chan < 3:
+            rgb[chan] = sym.int(f'c{k}', 0, 255)
+        r, g, b = rgb
         leds, rot, fade = sym.int(f'leds{k}', 0, 15), sym.int(f'rot{k}', 0, 7), sbool(sym, f'fade{k}')
         m.add(t, {'r': r, 'g': g, 'b': b}, leds, fade, rot)
-        c = rgb565(r, g, b)
-        entry = [t, c // 256, c % 256, leds + (16 if fade else 0) + 32 * rot]
-        if t != 0 or c != 0 or entry[3] != 0:
-            ref += entry
-        else:
-            sym.goal('zero-entry-dropped')
-    ref += [0, 0, 0, 0]
+        want.append((t, (r * 31 + 127) // 255, (g * 63 + 127) // 255, (b * 31 + 127) // 255, leds + (16 if fade else 0) + 32 * rot))
     done = Calls()
     m.write_data(done)
     assert len(h.writes) == 1 and h.writes[0][0] == 0 and h.writes[0][2] is True
-    assert len(h.writes[0][1]) == len(ref) and all_equal(h.writes[0][1], ref), 'LED timing image'
+    data = h.writes[0][1]
+    at = 0
+    for t, r5, g6, b5, flags in want:
+        if t == 0 and flags == 0 and r5 == 0 and g6 == 0 and b5 == 0:
+            sym.goal('zero-entry-dropped')
+            continue
+        assert len(data) >= at + 8, 'entry missing'
+        assert data[at] == t and data[at + 3] == flags, 'duration / flags byte'
+        w = data[at + 1] * 256 + data[at + 2]
+        assert w // 2048 == r5, 'red'
+        assert (w // 32) % 64 == g6, 'green'
+        assert w % 32 == b5, 'blue'
+        at += 4
+    assert len(data) == at + 4 and data[at:] == [0, 0, 0, 0], 'terminator'
     h.serve()
     assert len(done.calls) == 1
-    if len(ref) == 4 * n + 4:
+    if at == 4 * n:
         sym.goal('all-kept')
 
 
@@ -687,22 +699,36 @@ _BITS2 = [lambda d: d.supports_reset_to_fw, lambda d: d.supports_reset_to_bootlo
 def h_deck_info(sym):
     """Deck memory info section (version 3): one (quick) or two (thorough) of the 8 records fully symbolic."""
     ver = sym.int('version', 0, 255)
-    slots = sorted(set(sym.choice(f'slot{j}', 8) for j in range(sym.B['records'])))
+    supported = True if ver == 3 else False
+    if not supported:            # decided first so that the record forks below are not multiplied by it
+        slots = [5]
+    else:
+        slots = sorted(set(sym.choice(f'slot{j}', 8) for j in range(sym.B['records'])))
     img = [ver] + [0] * 256
     recs = {}
     for i in slots:
-        b1, b2 = sym.int(f'bits{i}', 0, 255), sym.int(f'bits2_{i}', 0, 255)
+        # bits = 2 * (upper 7 bits, symbolic) + valid bit (forked: the name is only looked at for valid records)
+        vbit = sym.choice(f'validbit{i}', 2)
+        b1, b2 = 2 * sym.int(f'bits{i}', 0, 127) + vbit, sym.int(f'bits2_{i}', 0, 255)
         u = sym.bytes(f'u{i}_', 12)
-        name = [sym.int(f'name{i}_{k}', 0, 127) for k in range(18)]       # assumption: deck names are ASCII
+        # name[18]: L non-zero ASCII characters, then (L < 18) a NUL followed by either NULs or non-zero garbage
+        # (bytes.split on arbitrary bytes would enumerate every NUL pattern of the tail: 2^17 paths)
+        lens = sym.B.get('namelens', tuple(range(19)))
+        ln, garbage = (lens[sym.choice(f'namelen{i}', len(lens))], sym.B.get('garbage', True) and sbool(sym, f'garbage{i}')) \
+            if vbit and supported else (0, False)
+        name = [sym.int(f'name{i}_{k}', 1, 127) for k in range(ln)] + [0] * (18 - ln)
+        for k in range(ln + 1, 18):
+            if garbage:
+                name[k] = sym.int(f'tail{i}_{k}', 1, 255)
         img[1 + 32 * i:1 + 32 * i + 32] = [b1, b2] + u + name
-        recs[i] = (b1, b2, u, name)
+        recs[i] = (b1, b2, u, name, ln)
     h = Mem(image=img)
     mgr = DeckMemoryManager(id=7, type=MemoryElement.TYPE_DECK_MEMORY, size=0x2000, mem_handler=h)
     done, fail = Calls(), Calls()
     mgr.query_decks(done, fail)
     assert h.reads == [(0, 257)]
     h.serve(read_cb='_new_data')
-    if ver != 3:
+    if not supported:
         assert len(fail.calls) == 1 and not done.calls, 'unsupported info version must be reported as failure'
         sym.goal('unsupported-version')
         return
@@ -712,7 +738,7 @@ def h_deck_info(sym):
         if i not in recs:
             assert i not in decks
             continue
-        b1, b2, u, name = recs[i]
+        b1, b2, u, name, ln = recs[i]
         if b1 % 2 == 0:
             assert i not in decks, 'record without the valid bit listed as a deck'
             sym.goal('not-valid')
@@ -725,11 +751,7 @@ def h_deck_info(sym):
             assert iff(pred(d), (b2 >> k) % 2 == 1), ('bit field 2, bit', k)
         assert (d.required_hash, d.required_length, d._base_address) == (le32(u[0:4]), le32(u[4:8]), le32(u[8:12]))
         assert d._command_base_address == 0x1000 + 0x20 * i
-        want = []
-        for c in name:
-            if c == 0:
-                break
-            want.append(c)
+        want = name[:ln]
         assert len(d.name) == len(want) and [ord(ch) for ch in d.name] == want, 'deck name is not the bytes before the first NUL'
         sym.goal('valid')
         if len(want) == 18:
@@ -805,27 +827,46 @@ def h_loco2(sym):
     sym.goal('anchors')
 
 
+# ================================================================ validation of the CRC model used above
+def h_crc_model(sym):
+    """(a) the affine CRC-32 model of vf/env/c14_env.py equals CPython's binascii.crc32 on fixed vectors;
+    (b) for every message of 1..2 (thorough: 3) bytes it equals the framework's bit-serial model (solver proof per
+    output bit).  Longer messages rest on (a) and on CRC being affine over GF(2), which is how the model is built."""
+    err = check_crc_model()
+    assert err is None, err
+    for n in sym.B['lengths']:
+        res = prove_crc_models_equal(n)
+        if res != 'unsat':
+            assert res != 'sat', f'affine and bit-serial CRC models disagree for {n} bytes'
+            raise Inconclusive(f'crc model equivalence for {n} bytes: {res}')
+
+
 HARNESSES = [
+    Harness('crc_model', h_crc_model, quick=dict(lengths=(1, 2)), thorough=dict(lengths=(1, 2, 3)), timeout=(250, 900)),
     Harness('eeprom_valid', h_eeprom_valid, goals=('valid-v0', 'valid-v1', 'invalid', 'unknown-version'), timeout=(200, 600)),
     Harness('eeprom_corrupt', h_eeprom_corrupt, goals=('corrupted',), timeout=(200, 600)),
     Harness('ow_roundtrip', h_ow_roundtrip, quick=dict(n=1, maxlen=8), thorough=dict(n=2, maxlen=5), timeout=(250, 1500),
             goals=('0-elements', '1-elements', 'two-step-read')),
+    Harness('ow_roundtrip[long]', h_ow_roundtrip, quick=dict(n=1, maxlen=99, minlen=9), timeout=(300, 1500),
+            goals=('1-elements', 'two-step-read'), tiers=('thorough',)),
     Harness('ow_valid', h_ow_valid, quick=dict(n=1, maxlen=4), thorough=dict(n=2, maxlen=3), timeout=(250, 1500),
             goals=('valid', 'invalid')),
     Harness('lh_geo', h_lh_geo, goals=('valid', 'not-valid'), timeout=(250, 900), smt_timeout=1.5),
     Harness('lh_calib', h_lh_calib, goals=('valid', 'not-valid'), timeout=(250, 900), smt_timeout=1.5),
     Harness('lh_flags', h_lh_flags, timeout=(250, 900)),
     Harness('lh_file', h_lh_file, quick=dict(geo_ids=(0, 1, 15), calib_ids=(0, 15)),
-            thorough=dict(geo_ids=(0, 1, 2, 7, 15), calib_ids=(0, 1, 15)), goals=('both', 'invalid-skipped', 'empty'), timeout=(250, 1500)),
+            thorough=dict(geo_ids=(0, 1, 7, 15), calib_ids=(0, 8, 15)), goals=('both', 'invalid-skipped', 'empty'), timeout=(250, 1500)),
     Harness('lh_file_envelope', h_lh_file_envelope, goals=('accepted', 'refused')),
     Harness('param_file', h_param_file, quick=dict(n=3), thorough=dict(n=4), goals=('some', 'none'), timeout=(250, 900)),
     Harness('param_file_envelope', h_param_file_envelope, goals=('accepted', 'refused')),
     Harness('poly4d', h_poly4d, goals=('written',), timeout=(250, 900), smt_timeout=1.5),
     Harness('compressed', h_compressed, quick=dict(all_durations=False), thorough=dict(all_durations=True),
             goals=('segment', 'refused'), timeout=(250, 1500)),
-    Harness('led_timings', h_led_timings, quick=dict(n=2), thorough=dict(n=3), goals=('all-kept', 'zero-entry-dropped'), timeout=(250, 1500)),
-    Harness('deck_info', h_deck_info, quick=dict(records=1), thorough=dict(records=2), timeout=(250, 1500),
+    Harness('led_timings', h_led_timings, quick=dict(n=2), goals=('all-kept', 'zero-entry-dropped'), timeout=(250, 1500)),
+    Harness('deck_info', h_deck_info, quick=dict(records=1), timeout=(300, 900),
             goals=('valid', 'not-valid', 'unsupported-version', 'name-18')),
+    Harness('deck_info[2]', h_deck_info, quick=dict(records=2, namelens=(0, 5, 18), garbage=False), timeout=(300, 1500),
+            goals=('valid', 'not-valid', 'name-18'), tiers=('thorough',)),
     Harness('loco', h_loco, quick=dict(n=2), thorough=dict(n=4), goals=('0-anchors', '2-anchors'), timeout=(250, 900), smt_timeout=1.5),
     Harness('loco2', h_loco2, quick=dict(sets=5), thorough=dict(sets=7), goals=('no-anchors', 'anchors'), timeout=(250, 900),
             smt_timeout=1.5, symbolic=False, note='anchor ids are forked over fixed sets (they become dict keys and page addresses)'),
